@@ -121,6 +121,8 @@ def ref_path(n: int, edges: List[Tuple[int, int]]):
     return [RefArray("passed", "b", n)], cons
 
 
+XITEMS: List[Any] = []
+
 EXTRA_GRAPHS = [
     ("two double edges", 4, [(0, 1), (0, 1), (2, 3), (2, 3)]),
     ("double edge with two tails", 4, [(0, 1), (0, 1), (0, 2), (1, 3)]),
@@ -146,6 +148,9 @@ def run_family(repo: Repo, rep: Report, label: str, fname: str, native: bool, re
 
             if same and (ret_ids is None or [LAST_MATCH.get(i) for i in ret_ids] != [("passed", k) for k in range(n)]):
                 same, diff = False, f"the returned value is not the array of passed-vertex flags but {[LAST_MATCH.get(i) for i in (ret_ids or [])]}"
+            if same and n <= 3 and ret_ids and all(i is not None for i in ret_ids):
+                XITEMS.append((f"{label}, graph '{gname}' {edges}", inst, [a for a in inst.arrays if a["user"]][0]["ids"] + ret_ids,
+                               (lambda n=n, edges=edges, want=want: trails(n, edges, want))))
             if same:
                 n_ok += 1
             else:
@@ -243,6 +248,11 @@ def run(repo: Repo, rep: Report) -> None:
     run_family(repo, rep, "active_edges_single_cycle(auxiliary route)", "active_edges_single_cycle", False, lambda n, e: ref_cycle(n, e, False), "cycle")
     run_family(repo, rep, "active_edges_single_cycle(primitive route)", "active_edges_single_cycle", True, lambda n, e: ref_cycle(n, e, True), "cycle")
     run_family(repo, rep, "active_edges_single_path(primitive route)", "active_edges_single_path", True, ref_path, "path")
+    if XITEMS and not rep.findings and not rep.undecided:
+        from .encodings import cross_check
+
+        cross_check(rep, "single cycle / single path", "_active_edges_single_cycle", list(XITEMS), total_budget_s=10.0, what="(edge flags, passed flags)")
+    XITEMS.clear()
     frame_form(repo, rep)
     c14.check(repo, rep)
     rep.assume("reference schemas are exact (DESIGN.md C06); the frame->graph conversion is the one C14 decides; native connectivity is the external solver's")
